@@ -1,5 +1,5 @@
 (* C11 — GetSnapshot returns the latest accepted snapshot, which is always a usable base. *)
-From TSS Require Import AStore Seq Http proofs.Chain proofs.Inv proofs.Agree proofs.Hist proofs.Cas proofs.Snapshot proofs.UrgencyArith proofs.HttpProps proofs.HttpReach proofs.HttpLib proofs.HttpLib2.
+From TSS Require Import AStore Seq Http proofs.Chain proofs.Steps proofs.Inv proofs.Agree proofs.Hist proofs.Cas proofs.Snapshot proofs.UrgencyArith proofs.HttpProps proofs.HttpReach proofs.HttpLib proofs.HttpLib2 proofs.SnapPair.
 Open Scope N_scope.
 
 (* ghost_snapshot recomputes, from requests and responses only, the most recent AddSnapshot
@@ -37,3 +37,36 @@ Theorem C11_http_get_snapshot_latest : forall k cfg allow h c E,
     | None => r = mkResp 404 None None None None [] true
     end.
 Proof. exact http_get_snapshot_latest. Qed.
+
+(* two uploads for two different recent versions of one client, in flight together: in whichever order
+   they are handled (on every backend, after any history), GetSnapshot afterwards returns the id and the
+   bytes of the upload for the NEWER version — premise: the newer one is acceptable by the rule of C10
+   on the state before both, and vn comes before vo among the five most recent versions *)
+Theorem C11_two_uploads_newer_wins : forall k cfg h c vn vo dn dold En Eo pre mid post, oracle_ok h ->
+  let acc := accepted c h (responses k cfg h) in
+  five_most_recent acc = pre ++ vn :: mid ++ vo :: post ->
+  forall rs, responses k cfg (h ++ [(OGetSnapshot c, noenv)]) = responses k cfg h ++ [rs] ->
+  accept_rule acc (snap_of rs) vn ->
+  exists r1 r2 r3 r4,
+    responses k cfg (h ++ [(OAddSnapshot c vo dold, Eo); (OAddSnapshot c vn dn, En); (OGetSnapshot c, noenv)])
+      = responses k cfg h ++ [r1; r2; RSnap vn dn] /\
+    responses k cfg (h ++ [(OAddSnapshot c vn dn, En); (OAddSnapshot c vo dold, Eo); (OGetSnapshot c, noenv)])
+      = responses k cfg h ++ [r3; r4; RSnap vn dn].
+Proof. exact snapshot_pair_hist. Qed.
+
+(* … and the two orders leave the same store (client by client) *)
+Theorem C11_two_uploads_commute : forall cfg U a c x vn vo dn dold En Eo,
+  Inv U a -> a_cl a c = Some x -> newer_in_window x vn vo -> as_accepts x vn = true ->
+  let a_on := snd (astep cfg (snd (astep cfg a (OAddSnapshot c vo dold) Eo)) (OAddSnapshot c vn dn) En) in
+  let a_no := snd (astep cfg (snd (astep cfg a (OAddSnapshot c vn dn) En)) (OAddSnapshot c vo dold) Eo) in
+  same_store a_on a_no /\
+  a_cl a_no c = Some (with_snap x vn (e_now En) dn) /\
+  a_ok a_no = true /\
+  fst (astep cfg a_no (OGetSnapshot c) En) = RSnap vn dn.
+Proof. exact snapshot_pair_newer_wins. Qed.
+
+Example C11_two_uploads_nonvacuous :
+  let vs := [mkVersion 11 0 [1%N]; mkVersion 12 11 [2%N]; mkVersion 13 12 [3%N]] in
+  let x := mkCS 13 None vs in
+  newer_in_window x 13 12 /\ as_accepts x 13 = true /\ as_accepts x 12 = true.
+Proof. exact snapshot_pair_nonvacuous. Qed.
